@@ -723,7 +723,12 @@ def _worker(conn: Any, scratch: str) -> None:
                 if isinstance(payload, dict) and payload.get("source"):
                     payload = dict(payload, _budget=budget)
                 signal.setitimer(signal.ITIMER_REAL, budget)
-                out = _impl(payload, sp)
+                if isinstance(payload, dict) and payload.get("tz"):
+                    # the same call with the time zone of THIS worker process switched (TZ + tzset) for its duration
+                    with lib.ProcessTZ(*payload["tz"]):
+                        out = _impl(payload, sp)
+                else:
+                    out = _impl(payload, sp)
             finally:
                 signal.setitimer(signal.ITIMER_REAL, 0)
         except _SoftTimeout:
